@@ -138,7 +138,16 @@ theorem step_refines {V : Type} {ops : Ops V} {r : Run V} {caps0 : Nat → Optio
               rw [hlen]
               exact (List.getElem?_eq_some_iff.mp hid).1
             exact hfill.none_at p v (by simpa using hm) hp
-          apply hct.inPlace i op hop taken ins full htk hnodup hplace _ hfill
+          have hsingle : op.commutative = true → taken.length = 1 := by
+            intro hcomm
+            rcases T.hpos with h | h
+            · exact absurd h htk
+            · have hl := congrArg List.length h
+              simp only [List.length_map] at hl
+              have := candidates_comm_length (ops := ops) i op st.temps hcomm
+              have hpos : 0 < taken.length := List.length_pos_iff.mpr htk
+              omega
+          apply hct.inPlace i op hop taken ins full htk hnodup hplace hsingle _ hfill
           intro p hp
           rw [List.mem_map] at hp
           obtain ⟨⟨p', v⟩, hm, rfl⟩ := hp
